@@ -22,10 +22,16 @@ Phase(e) == IF e.raised THEN Chk(FALSE, "channel_raised_on_admissible_input") EL
     /\ Chk(e.sigma_milli = 0 \/ e.N < 100000 \/ e.mean_ppm <= MeanBandPpm(e.N), "phase_noise_has_zero_mean")
 Perfect(e) == IF e.raised THEN Chk(FALSE, "channel_raised_on_admissible_input") ELSE
     /\ Chk(e.identity, "perfect_channel_is_the_identity") /\ Chk(e.shape_ok, "output_shape_equals_input_shape")
+\* nonlinear channel without noise: the output is the transfer function applied as the complex mode prescribes
+\* (direct: f(x); cartesian: f(Re x) + j f(Im x); polar: f(|x|) with the phase of x)
+Nonlinear(e) == IF e.raised THEN Chk(FALSE, "channel_raised_on_admissible_input") ELSE
+    /\ Chk(e.err_ppm <= 50, "noise_free_output_is_the_transfer_function_in_the_configured_complex_mode")
+    /\ Chk(e.mode # "polar" \/ e.phase_err_ppm <= 50, "polar_mode_keeps_the_phase")
+    /\ Chk(e.shape_ok, "output_shape_and_kind_equal_input")
 Init == l = 1
 Next == /\ l <= Len(TLog)
         /\ LET e == TLog[l] IN
-             CASE e.ev = "Poisson" -> Poisson(e) [] e.ev = "Phase" -> Phase(e) [] e.ev = "Perfect" -> Perfect(e)
+             CASE e.ev = "Poisson" -> Poisson(e) [] e.ev = "Phase" -> Phase(e) [] e.ev = "Perfect" -> Perfect(e) [] e.ev = "Nonlinear" -> Nonlinear(e)
                [] OTHER -> Chk(FALSE, "unknown_event")
         /\ l' = l + 1
 Spec == Init /\ [][Next]_l
